@@ -212,7 +212,7 @@ impl Sim {
 
 pub fn check(case: &Case) -> CheckResult {
     let mut info = CaseInfo::default();
-    let prague = crate::driver::network() != "signet";
+    let prague = !matches!(crate::driver::network().as_str(), "signet" | "mainnet" | "bitcoin");
     let mut inst = Instance::fresh("c19");
     let r = inst.call("brc20_initialise", json!({"genesis_hash": b256_hex(keccak256(b"c19genesis")), "genesis_timestamp": 9, "genesis_height": 0}));
     if !init_effective(&r) {
@@ -428,10 +428,10 @@ impl Property for C19 {
         "C19"
     }
     fn part_network(&self, part: &str) -> Option<&'static str> {
-        if part == "signet" {
-            Some("signet")
-        } else {
-            None
+        match part {
+            "signet" => Some("signet"),
+            "mainnet" => Some("mainnet"),
+            _ => None,
         }
     }
     fn run(&self, ctx: &Ctx, ev: &mut Evidence) -> Vec<Found> {
@@ -441,6 +441,8 @@ impl Property for C19 {
         let mut found = explore(ctx, ev, &a, strategy, check);
         let b = PartCfg { name: "signet", rule: "the same on a network where the Cancun rules apply at low heights (signet): the txid helper must be absent (empty return), everything else as above; run in worker processes configured for that network", cases: ctx.tier.pick(700, 8000), max_shrink_iters: ctx.tier.pick(300, 1200) };
         found.extend(explore_net(ctx, ev, &b, Some("signet"), strategy, check));
+        let c = PartCfg { name: "mainnet", rule: "the same on mainnet rules (Cancun at low heights, mainnet chain id, transaction hashes of signed transactions derived the pre-RLP way): CHAINID must be the mainnet id, the helper absent", cases: ctx.tier.pick(500, 6000), max_shrink_iters: ctx.tier.pick(300, 1200) };
+        found.extend(explore_net(ctx, ev, &c, Some("mainnet"), strategy, check));
         found
     }
     fn replay(&self, _part: &str, case: &Value) -> CheckResult {
